@@ -3,6 +3,7 @@ Core E, helper lemmas: the representation invariant `Inv` is preserved by every
 event of the broker model.
 -/
 import Mqtt.Proofs.BrokerFanoutRetained
+import Mqtt.Properties.C06
 
 set_option linter.unusedSimpArgs false
 
@@ -11,27 +12,36 @@ open Mqtt.Iface.Broker Mqtt.Model.Broker
 open Mqtt.Model.Topics (MemTopics RMsg SNode RNode levels validQos Level)
 open Mqtt.Proofs.Topics (WF RWF abs absR good)
 
+theorem Inv_of_frame' (b b' : B) (h : Inv b) (hc : b'.conns = b.conns) (hs : b'.sess = b.sess)
+    (hwf : WF b'.topics.sroot) (hrwf : RWF b'.topics.rroot)
+    (hfl : ∀ e ∈ absR b'.topics.rroot, e.2.retain = true) : Inv b' := by
+  refine ⟨hwf, hrwf, hfl, ?_⟩
+  intro cn hcn ha
+  rw [getSess_congr b b' hs]
+  rw [hc] at hcn
+  exact h.sess cn hcn ha
+
 theorem Inv_of_frame (b b' : B) (h : Inv b) (hc : b'.conns = b.conns) (hs : b'.sess = b.sess)
-    (hwf : WF b'.topics.sroot) (hrwf : RWF b'.topics.rroot) : Inv b' := by
-  refine ⟨hwf, hrwf, ?_⟩
+    (hwf : WF b'.topics.sroot) (hr : b'.topics.rroot = b.topics.rroot) : Inv b' := by
+  refine ⟨hwf, by rw [hr]; exact h.rwf, by rw [hr]; exact h.rflag, ?_⟩
   intro cn hcn ha
   rw [getSess_congr b b' hs]
   rw [hc] at hcn
   exact h.sess cn hcn ha
 
 theorem Inv_setSess (b : B) (s : Sess) (h : Inv b) : Inv (b.setSess s) := by
-  refine ⟨h.wf, h.rwf, ?_⟩
+  refine ⟨h.wf, h.rwf, h.rflag, ?_⟩
   intro cn hcn ha
   exact getSess_setSess_isSome b s cn.sess (Or.inl (h.sess cn hcn ha))
 
 theorem Inv_storeDel (b : B) (k : Bytes) (h : Inv b) : Inv (b.storeDel k) :=
-  Inv_of_frame b _ h rfl rfl h.wf h.rwf
+  Inv_of_frame b _ h rfl rfl h.wf rfl
 
 theorem Inv_storeSet (b : B) (k : Bytes) (r : Nat) (h : Inv b) : Inv (b.storeSet k r) :=
-  Inv_of_frame b _ h rfl rfl h.wf h.rwf
+  Inv_of_frame b _ h rfl rfl h.wf rfl
 
 theorem Inv_nextRef (b : B) (n : Nat) (h : Inv b) : Inv { b with nextRef := n } :=
-  Inv_of_frame b _ h rfl rfl h.wf h.rwf
+  Inv_of_frame b _ h rfl rfl h.wf rfl
 
 /-! ### the tries -/
 
@@ -65,13 +75,58 @@ theorem retainStep_RWF (b : B) (m : Msg) (h : RWF b.topics.rroot) : RWF (retainS
         · exact h
         · exact retain_RWF _ _ h
 
+/-- storing a message whose RETAIN flag is set (or clearing) keeps all stored flags set -/
+theorem retain_flag (mt : MemTopics) (r : RMsg) (hwf : RWF mt.rroot)
+    (hf : ∀ e ∈ absR mt.rroot, e.2.retain = true) (hr : r.retain = true) :
+    ∀ e ∈ absR (mt.retain r).1.rroot, e.2.retain = true := by
+  rw [retain_rroot]
+  obtain ⟨_, _, h3, h4, h5, h6⟩ := Mqtt.Properties.C06.C06_retained_trie_refines mt.rroot (levels r.topic).1 r hwf
+  intro e he
+  split at he
+  · cases hl : (levels r.topic).2 with
+    | true =>
+      rw [hl] at he
+      exact hf e (List.mem_filter.mp (h5.mem_iff.mp he)).1
+    | false =>
+      rw [hl, h6] at he
+      exact hf e he
+  · cases hl : (levels r.topic).2 with
+    | true =>
+      rw [hl] at he
+      have := h3.mem_iff.mp he
+      simp only [List.mem_append, List.mem_filter, List.mem_singleton] at this
+      rcases this with hx | rfl
+      · exact hf e hx.1
+      · exact hr
+    | false =>
+      rw [hl] at he
+      exact hf e (h4.mem_iff.mp he)
+
+theorem retainStep_flag (b : B) (m : Msg) (hwf : RWF b.topics.rroot)
+    (hf : ∀ e ∈ absR b.topics.rroot, e.2.retain = true) :
+    ∀ e ∈ absR (retainStep b m).1.topics.rroot, e.2.retain = true := by
+  unfold retainStep
+  split
+  · exact hf
+  · rename_i hr
+    have hr' : m.p.retain = true := by simpa using hr
+    split
+    · exact retain_flag _ _ hwf hf hr'
+    · split
+      · exact retain_flag _ _ hwf hf hr'
+      · split
+        · exact hf
+        · rename_i w m' ctr he
+          exact retain_flag _ _ hwf hf ((encode_fields _ _ _ _ _ he).1.trans hr')
+
 theorem Inv_retainStep (b : B) (m : Msg) (h : Inv b) : Inv (retainStep b m).1 := by
   obtain ⟨f1, f2, f3, _, _⟩ := retainStep_frame b m
-  exact Inv_of_frame b _ h f2 f3 (by rw [f1]; exact h.wf) (retainStep_RWF b m h.rwf)
+  exact Inv_of_frame' b _ h f2 f3 (by rw [f1]; exact h.wf) (retainStep_RWF b m h.rwf)
+    (retainStep_flag b m h.rwf h.rflag)
 
 theorem Inv_fanout (b : B) (m : Msg) (subs : List (Nat × Nat)) (h : Inv b) : Inv (fanout b m subs).1 := by
   obtain ⟨f1, f2, f3⟩ := fanout_state subs b m
-  exact Inv_of_frame b _ h f2 f3 (by rw [f1]; exact h.wf) (by rw [f1]; exact h.rwf)
+  exact Inv_of_frame b _ h f2 f3 (by rw [f1]; exact h.wf) (by rw [f1])
 
 theorem Inv_onPublish (b : B) (m : Msg) (h : Inv b) : Inv (onPublish b m).1 := by
   unfold onPublish
@@ -107,11 +162,11 @@ theorem subscribeLoop_WF (c : Nat) (topics : List (Bytes × Nat)) :
 theorem Inv_subscribeLoop (b : B) (c : Nat) (s : Sess) (topics : List (Bytes × Nat)) (codes : List Nat)
     (rms : List Msg) (h : Inv b) : Inv (subscribeLoop b c s topics codes rms).1 := by
   obtain ⟨f1, f2, _, f4, _⟩ := subscribeLoop_conns c topics b s codes rms
-  exact Inv_of_frame b _ h f1 f2 (subscribeLoop_WF c topics b s codes rms h.wf) (by rw [f4]; exact h.rwf)
+  exact Inv_of_frame b _ h f1 f2 (subscribeLoop_WF c topics b s codes rms h.wf) f4
 
 theorem Inv_sendRetained (b : B) (c : Nat) (rms : List Msg) (h : Inv b) : Inv (sendRetained b c rms).1 := by
   obtain ⟨f1, f2, f3, _⟩ := sendRetained_shape c rms b
-  exact Inv_of_frame b _ h f1 f2 (by rw [f3]; exact h.wf) (by rw [f3]; exact h.rwf)
+  exact Inv_of_frame b _ h f1 f2 (by rw [f3]; exact h.wf) (by rw [f3])
 
 theorem unsubFold_frame (c : Nat) (topics : List Bytes) : ∀ ts : MemTopics, WF ts.sroot →
     WF (topics.foldl (fun ts t => (ts.unsubscribe t (some c)).1) ts).sroot ∧
@@ -150,7 +205,7 @@ theorem resubscribe_frame (c : Nat) (l : List (Bytes × Nat)) : ∀ ts : MemTopi
 
 theorem Inv_markDead (b : B) (c : Nat) (h : Inv b) :
     Inv { b with conns := b.conns.map (fun (x : Conn) => if x.id == c then { x with alive := false } else x) } := by
-  refine ⟨h.wf, h.rwf, ?_⟩
+  refine ⟨h.wf, h.rwf, h.rflag, ?_⟩
   intro cn hcn ha
   simp only [List.mem_map] at hcn
   obtain ⟨x, hx, rfl⟩ := hcn
@@ -173,7 +228,7 @@ theorem Inv_stop (b : B) (c : Nat) (h : Inv b) : Inv (stop b c).1 := by
         have h1 : Inv { ({ b with conns := b.conns.map (fun (x : Conn) => if x.id == c then { x with alive := false } else x) } : B) with
             topics := unsubAll b.topics c s.topics } :=
           Inv_of_frame _ _ h0 rfl rfl (unsubAll_frame c s.topics b.topics h.wf).1
-            (by rw [(unsubAll_frame c s.topics b.topics h.wf).2]; exact h.rwf)
+            (unsubAll_frame c s.topics b.topics h.wf).2
         split
         · split
           · exact h1
@@ -217,7 +272,7 @@ theorem Inv_packet (b : B) (c : Nat) (p : Packet) (h : Inv b) : Inv (packet b c 
           simp only
           apply Inv_setSess
           obtain ⟨h1, h2⟩ := unsubFold_frame c ts b.topics h.wf
-          exact Inv_of_frame b _ h rfl rfl h1 (by rw [h2]; exact h.rwf)
+          exact Inv_of_frame b _ h rfl rfl h1 h2
         | disconnect => exact Inv_stop _ _ (Inv_setSess _ _ h)
         | pubrec id => exact h
         | pingreq => exact h
@@ -242,12 +297,12 @@ theorem Inv_srvSub (b : B) (cb : Nat) (f : Bytes) (q : Nat) (h : Inv b) : Inv (s
   generalize b.topics.subscribe Mqtt.Generated.maxQosAllowed f q cb = r at hw hr
   obtain ⟨ts, o⟩ := r
   cases o with
-  | none => exact Inv_of_frame b _ h rfl rfl hw (by rw [hr]; exact h.rwf)
-  | some rq => exact Inv_of_frame b _ h rfl rfl hw (by rw [hr]; exact h.rwf)
+  | none => exact Inv_of_frame b _ h rfl rfl hw hr
+  | some rq => exact Inv_of_frame b _ h rfl rfl hw hr
 
 theorem Inv_srvUnsub (b : B) (cb : Nat) (f : Bytes) (h : Inv b) : Inv (srvUnsub b cb f).1 := by
   unfold srvUnsub
-  exact Inv_of_frame b _ h rfl rfl (unsubscribe_WF b.topics f (some cb) h.wf) h.rwf
+  exact Inv_of_frame b _ h rfl rfl (unsubscribe_WF b.topics f (some cb) h.wf) rfl
 
 /-! ### first packet -/
 
@@ -256,7 +311,7 @@ theorem Inv_addConn (b : B) (c : Nat) (s : Sess) (h : Inv b) (hs : (b.getSess s.
     Inv { ({ b with conns := b.conns.filter (fun (x : Conn) => x.id != c) ++ [({ id := c, sess := s.ref, alive := true } : Conn)] } : B) with
           topics := resubscribe b.topics c s.topics } := by
   obtain ⟨h1, h2⟩ := resubscribe_frame c s.topics b.topics h.wf
-  refine ⟨h1, by rw [h2]; exact h.rwf, ?_⟩
+  refine ⟨h1, by rw [h2]; exact h.rwf, by rw [h2]; exact h.rflag, ?_⟩
   intro cn hcn ha
   simp only [List.mem_append, List.mem_filter, List.mem_singleton] at hcn
   rcases hcn with hcn | rfl
